@@ -60,6 +60,7 @@ func hcGenExchange(rng *sim.Rand, prop string, sc *hcScenario) hcExchange {
 		ex.ChunkSz = rng.Pick(1, 7, 100, 4096, 0)
 		ex.Inc = rng.Bool(0.3)
 		ex.ReqGzip = prop == "C03" && ex.BodyLen > 0 && rng.Bool(0.2)
+		ex.Expect100 = ex.BodyLen > 0 && rng.Bool(0.12)
 	}
 	ex.AcceptEnc = rng.PickStr("", "", "gzip", "gzip, deflate", "identity", "br")
 	ex.NewConn = rng.Bool(0.2)
@@ -281,7 +282,10 @@ func hcGenC07(rng *sim.Rand, tier string) interface{} {
 					}
 					ex.RChunked = false
 				}
-				if rng.Bool(0.08) && ex.BodyLen > 1 && ex.FailFirst == 0 {
+				if ex.BodyLen > 0 && rng.Bool(0.12) {
+					ex.Expect100 = true
+				}
+				if rng.Bool(0.08) && ex.BodyLen > 1 && ex.FailFirst == 0 && !ex.Expect100 {
 					ex.ReqShort = rng.Pick(1, 2, ex.BodyLen/2, ex.BodyLen)
 					if ex.Chunked {
 						ex.ReqShort = rng.Pick(1, 5, 6, 7+ex.BodyLen/2) // 5 = exactly the terminator "0\r\n\r\n"
@@ -701,7 +705,7 @@ func (c *hcChain) checkC03(id string, ex *hcExchange, res *hcResp) {
 			r.Violate("C03.req.hop-header-forwarded", "%s: hop-by-hop header %s reached the backend with %q\n%s", id, k, seen.hdr.Values(k), desc)
 		}
 	}
-	allowed := map[string]bool{"Accept-Encoding": true, "User-Agent": true, "Content-Length": true, "X-Verif-Id": true, "Content-Encoding": c.sc.ReqAdaptor != "" || ex.ReqGzip}
+	allowed := map[string]bool{"Accept-Encoding": true, "User-Agent": true, "Content-Length": true, "X-Verif-Id": true, "Content-Encoding": c.sc.ReqAdaptor != "" || ex.ReqGzip, "Expect": ex.Expect100}
 	for k := range seen.hdr {
 		if _, ok := want[k]; !ok && !allowed[k] && !hcHop[k] && !named[k] {
 			r.Violate("C03.req.header-added", "%s: backend saw header %s=%q that the client did not send\n%s", id, k, seen.hdr.Values(k), desc)
@@ -909,8 +913,20 @@ func (c *hcChain) checkC07(id string, ex *hcExchange, res *hcResp) {
 		}
 	}
 	// ---- request direction
+	if ex.Expect100 {
+		r.Probe("c07.request_with_expect_100_continue")
+		if res.got100 {
+			r.Probe("c07.request_with_expect_got_100")
+		}
+		if res.bodyHeld {
+			r.Probe("c07.request_with_expect_answered_before_body")
+		}
+	}
 	if reqLim >= 0 && int64(ex.BodyLen) > reqLim {
 		r.Probe("c07.request_over_limit")
+		if ex.Expect100 && !ex.Chunked && res.got100 {
+			r.Probe("c07.over_limit_declared_body_was_asked_for_with_100_continue")
+		}
 		if res.status != 413 {
 			r.Violate("C07.req.over-limit-not-413", "%s: request body %d > limit %d but client got status %d (ioerr %v)\n%s", id, ex.BodyLen, reqLim, res.status, res.ioErr, desc)
 		}
